@@ -53,6 +53,7 @@ type config struct {
 	acmeData *hatypes.AcmeData
 	// haproxy internal state
 	globalOld   *hatypes.Global
+	globalPrev  *hatypes.Global
 	global      *hatypes.Global
 	frontend    *hatypes.Frontend
 	hosts       *hatypes.Hosts
@@ -480,6 +481,14 @@ func (c *config) Clear() {
 	// can be removed from the work queue when a full reconciliation happens
 	config.acmeData = c.acmeData.ClearStorages()
 
+	// copying the committed global, so files that also render global configurations,
+	// like the backend shards, can be properly identified and updated when a global
+	// configuration changes and a full reconciliation happens
+	config.globalPrev = c.globalOld
+	if config.globalPrev == nil {
+		config.globalPrev = c.globalPrev
+	}
+
 	*c = *config
 }
 
@@ -494,10 +503,16 @@ func (c *config) ForceRewrite() {
 func (c *config) Shrink() {
 	c.hosts.Shrink()
 	c.backends.Shrink()
+	if c.globalPrev != nil && !reflect.DeepEqual(c.globalPrev, c.global) {
+		// global configurations are also used to render the backend shards and to build
+		// the backend maps, including the ones of the backends that were left unchanged
+		c.ForceRewrite()
+	}
 }
 
 func (c *config) Commit() {
 	c.rewriteAll = false
+	c.globalPrev = nil
 	if !reflect.DeepEqual(c.globalOld, c.global) {
 		// globals still uses the old deepCopy+fullParsing+deepEqual strategy
 		var globalOld hatypes.Global
